@@ -55,11 +55,14 @@ class Lifecycle(ThreadedMixin, Scenario):
             def cb():
                 self.counter += 1
                 self.log.append(("poll", "src", self.loop.time(), self.counter, self.ref_started))
-                if "pollfail" in opts and self.counter == 2 and self.crashed_at is None:
+                if ("pollfail" in opts or "pollcancel" in opts) and self.counter == 2 and self.crashed_at is None:
                     # the polled callable fails once: that polling loop ends, a later stop() + start() begins a new one
                     self.crashed_at = self.loop.time()
                     self.log.append(("crash", "src", self.loop.time(), self.counter))
                     self.counter -= 1
+                    if "pollcancel" in opts:
+                        import asyncio
+                        raise asyncio.CancelledError()       # not an Exception subclass
                     raise Injected("poll")
                 return self.counter
             self.source = Stream.from_periodic(cb, poll_interval=POLL, loop=self.ioloop, asynchronous=True, start=bool(p.get("autostart")))
@@ -67,7 +70,7 @@ class Lifecycle(ThreadedMixin, Scenario):
             def gen():
                 for i in range(p["n"]):
                     self.log.append(("poll", "src", self.loop.time(), i, self.ref_started))
-                    yield i
+                    yield (None if ("none" in opts and i == 1) else i)        # None is an item like any other
             self.source = Stream.from_iterable(gen(), loop=self.ioloop, asynchronous=True, start=bool(p.get("autostart")))
         elif kind == "from_q":
             import queue
@@ -110,7 +113,12 @@ class Lifecycle(ThreadedMixin, Scenario):
             self.source2 = Stream.from_iterable(gen2(), loop=self.ioloop, asynchronous=True)
             node = self.source.union(self.source2)
             self.ctl = node
-        node.sink(self.make_sink_fn(p["kind"], "S"))
+        if "deep" in opts:
+            # start() / stop() are called two levels below the source
+            node = node.map(lambda x: x).filter(lambda x: True)
+            self.ctl = node
+        inner_sink = self.make_sink_fn(p["kind"], "S")
+        node.sink((lambda x: inner_sink(1 if x is None else x)) if "none" in opts else inner_sink)
         if "fan" in opts:
             node.sink(self.make_sink_fn("future", "T"))
         if "thread" in opts:
@@ -146,6 +154,8 @@ class Lifecycle(ThreadedMixin, Scenario):
         self.violations.append(Violation("lifecycle-call-raised", self.site(), type(e).__name__, str(e)[:200]))
 
     def expected_background(self, err):
+        if "pollcancel" in self.opts and "Cancel" in (err[1] + err[2]):
+            return True
         return ("pollfail" in self.opts and "Injected" in (err[1] + err[2])) or super().expected_background(err)
 
     def _start(self):
@@ -323,6 +333,12 @@ def plan(ctx):
     jobs.append((("from_iterable", "future", 2, 2, 0.5, "fan"), 1))
     jobs.append((("from_periodic", "future", 2, 0, 1.5, "fan"), 1 if T else 0))
     jobs.append((("from_q", "future", 3, 3, 1.5), 1))
+    jobs.append((("from_q", "future", 2, 5, 1.5), 1 if T else 0))       # a longer backlog in the queue
+    jobs.append((("from_q", "sync", 2, 6, 1.5), 1))
+    jobs.append((("from_iterable", "future", 3, 3, 0.5, "none"), 1))
+    jobs.append((("from_iterable", "future", 3, 3, 0.5, "deep"), 1))
+    jobs.append((("from_periodic", "sync", 3, 0, 1.5, "deep"), 1))
+    jobs.append((("from_periodic", "sync", 4, 0, 2.5, "pollcancel"), 1))
     jobs.append((("from_q", "sync", 3, 3, 1.5), 1))
     jobs.append((("from_periodic", "sync", 4, 0, 2.5, "pollfail"), 1))
     jobs.append((("from_periodic", "future", 3, 0, 2.5, "pollfail"), 1 if T else 0))
